@@ -118,6 +118,7 @@ class Bus:
                 simpy.Process(c, self._periodic(topic, per))
         self.until = 0.0
         self.lock_checked = False
+        self.params_published = False  # becomes true with the first parameter broadcast (set_param or run)
 
     # -- driver side ------------------------------------------------------------------------------------
     def _new_msg(self, topic):
@@ -177,6 +178,21 @@ class Bus:
                     self.fails.append(("logger_row_holds_latest_message_per_topic", dict(row=self.rows_seen, topic=k, logged=got[k], latest=w, time=want["time"])))
             if got["time"] != want["time"]:
                 self.fails.append(("logger_row_time_is_current_time", dict(row=self.rows_seen, logged=got["time"], now=want["time"])))
+            # the parameter topic is a topic like any other: the row holds the latest parameter message (the values last set on the core)
+            if c._params is not None and self.params_published:
+                for n in range(len(self.params)):
+                    try:
+                        lv = float(row["params"]["n%d/p" % n])
+                    except Exception as ex:  # noqa: BLE001
+                        lv = "raises %s" % type(ex).__name__
+                    if lv != self.param_set[n]:
+                        self.fails.append(("logger_row_holds_latest_message_per_topic", dict(row=self.rows_seen, topic="params", name="n%d/p" % n, logged=lv, latest=self.param_set[n])))
+                try:
+                    ld = float(row["params"]["logger/dt"])
+                    if ld != self.ref_logdt:
+                        self.fails.append(("logger_row_holds_latest_message_per_topic", dict(row=self.rows_seen, topic="params", name="logger/dt", logged=ld, latest=self.ref_logdt)))
+                except Exception:  # noqa: BLE001
+                    pass
             # one row per logging period: the row is due exactly one (then current) period after the previous one
             if abs(want["time"] - self.ref_next_row) > 1e-9:
                 self.fails.append(("logger_one_row_per_period", dict(row=self.rows_seen, time=want["time"], due=self.ref_next_row, period=self.ref_logdt)))
@@ -207,6 +223,7 @@ class Bus:
             val = self.param_set[0] + 1.5
             c.set_param("n0/p", val)
             self.param_set[0] = val
+            self.params_published = True
             for n, (p, follows) in enumerate(self.params):
                 if follows:
                     self.param_ref[n] = self.param_set[n]
@@ -220,10 +237,12 @@ class Bus:
             val = 1.0 if self.ref_logdt == 2.0 else 2.0
             c.set_param("logger/dt", val)
             self.ref_logdt = val
+            self.params_published = True
             if self.logger.dt.get() != val:
                 self.fails.append(("logger_follows_parameter_topic", dict(dt=self.logger.dt.get(), set=val)))
         elif ev in ("run1", "run2"):
             self.until += 1.0 if ev == "run1" else 2.0
+            self.params_published = True  # run() broadcasts the parameters before the first event
             c.run(until=self.until)
             # run() re-broadcasts the parameters: followers now hold the values last set
             for n, (p, follows) in enumerate(self.params):
@@ -244,6 +263,15 @@ class Bus:
         return True
 
     def check_params(self, when):
+        # the core itself keeps every value that was set (also for nodes that do not follow the parameter topic), across run()
+        if self.core._params is not None:
+            for n, (p, follows) in enumerate(self.params):
+                try:
+                    cv = float(self.core.get_param("n%d/p" % n))
+                except Exception as ex:  # noqa: BLE001
+                    cv = "raises %s" % type(ex).__name__
+                if cv != self.param_set[n]:
+                    self.fails.append(("core_keeps_parameter_values_that_were_set", dict(when=when, node=n, follows=follows, core_value=cv, set_value=self.param_set[n])))
         for n, (p, follows) in enumerate(self.params):
             if p.get() != self.param_ref[n]:
                 self.fails.append(("parameter_seen_by_followers_only", dict(when=when, node=n, follows=follows, value=p.get(), expected=self.param_ref[n])))
